@@ -269,7 +269,7 @@ def _grad(i, color):
 
 
 def crafted_docs():
-    out = units_docs() + marker_docs() + [specular_doc(v) for v in SPECULAR_VALUES]
+    out = units_docs() + marker_docs() + [specular_doc(v) for v in SPECULAR_VALUES] + feimage_image_docs() + subregion_docs()
     # a path whose fill AND stroke are different patterns; what the stroke pattern's content uses is used nowhere else
     for res, attr, definition in [
         ('only-g', 'fill="url(#only-g)"', _grad('only-g', 'red')),
@@ -391,3 +391,38 @@ def specular_doc(v):
     return ('<svg %s width="100" height="100"><filter id="f" filterUnits="userSpaceOnUse" x="0" y="0" width="100" height="100">'
             '<feSpecularLighting%s><feDistantLight azimuth="10" elevation="20"/></feSpecularLighting></filter>'
             '<rect width="50" height="50" filter="url(#f)"/></svg>' % (NS, a))
+
+
+PNG_4x4 = "iVBORw0KGgoAAAANSUhEUgAAAAQAAAAECAIAAAAmkwkpAAAAFElEQVR4nGP8z8DAwMDAxMDAwMAAAA0GAQOGZq0kAAAAAElFTkSuQmCC"
+
+
+def feimage_image_docs():
+    """feImage whose href is an IMAGE (raster or SVG data URL), for every kind of preserveAspectRatio, in non-square regions"""
+    svg_img = base64.b64encode(('<svg xmlns="http://www.w3.org/2000/svg" width="20" height="10"><rect width="20" height="10" fill="red"/>'
+                                '<circle cx="5" cy="5" r="4" fill="blue"/></svg>').encode()).decode()
+    hrefs = ['data:image/png;base64,' + PNG_4x4, 'data:image/svg+xml;base64,' + svg_img]
+    out = []
+    for h in hrefs:
+        for par in [None, 'none', 'xMidYMid meet', 'xMidYMid slice', 'xMinYMax slice', 'xMaxYMin meet', 'xMaxYMax slice']:
+            for region in ('x="5" y="5" width="60" height="30"', 'x="10" y="0" width="20" height="70"'):
+                a = '' if par is None else ' preserveAspectRatio="%s"' % par
+                out.append('<svg %s width="100" height="100"><filter id="fi" filterUnits="userSpaceOnUse" %s><feImage xlink:href="%s"%s/></filter>'
+                           '<rect x="5" y="5" width="80" height="80" fill="green" filter="url(#fi)"/>'
+                           '<image x="60" y="60" width="30" height="15" xlink:href="%s"%s id="im"/></svg>' % (NS, region, h, a, h, a))
+    return out
+
+
+def subregion_docs():
+    """filter primitives whose subregion equals the filter region in some of x / y / width / height and differs in the others:
+    all 16 combinations, in both primitiveUnits (the writer elides exactly the equal ones)"""
+    out = []
+    for pu in ('userSpaceOnUse', 'objectBoundingBox'):
+        eq = ('25', '25', '50', '50') if pu == 'userSpaceOnUse' else ('0.25', '0.25', '0.5', '0.5')
+        ne = ('35', '45', '30', '20') if pu == 'userSpaceOnUse' else ('0.35', '0.45', '0.3', '0.2')
+        for mask in range(16):
+            attrs = ' '.join('%s="%s"' % (n, (ne if mask & (1 << i) else eq)[i]) for i, n in enumerate(('x', 'y', 'width', 'height')))
+            out.append('<svg %s width="100" height="100"><filter id="fs" filterUnits="userSpaceOnUse" primitiveUnits="%s" x="25" y="25" width="50" height="50">'
+                       '<feFlood flood-color="red" flood-opacity="0.6" %s/><feOffset in="SourceGraphic" dx="2" %s result="o"/>'
+                       '<feMerge><feMergeNode in="result1"/><feMergeNode in="o"/></feMerge></filter>'
+                       '<rect width="100" height="100" fill="blue" filter="url(#fs)"/></svg>' % (NS, pu, attrs, attrs))
+    return out
